@@ -276,7 +276,14 @@ func Extract(p *core.Program) (*Tables, []error) {
 		t.BlackEventsVar = name
 		t.BlackEvents = readNamed(e, "event list")
 	}
-	if name, e := resolve("gsHexDecodeMap", "hex decode table", isSliceOfInt, nil); e != nil {
+	// the hex decode table is optional (a tree may compute digit values instead);
+	// checks that need it test HexMapVar themselves.
+	nErr := len(errs)
+	hexName, hexInit := resolve("gsHexDecodeMap", "hex decode table", isSliceOfInt, nil)
+	if hexInit == nil {
+		errs = errs[:nErr]
+	}
+	if name, e := hexName, hexInit; e != nil {
 		t.HexMapVar = name
 		if cl, ok := e.(*ast.CompositeLit); ok {
 			for _, el := range cl.Elts {
